@@ -215,6 +215,97 @@ mod bb {
         Ok(stops.len() as u64)
     }
 
+    /// Differential form for arbitrary (also invalid) continuations: `data` starts with valid
+    /// non-final blocks; the uninterrupted decode, the stop-and-continue decode and a decoder
+    /// rebuilt at every stop must end with the same status, output and consumed count.
+    pub fn boundary_any_case(data: &[u8], room: usize) -> Result<u64, String> {
+        let run = |r: &mut DecompressorOxide, out: &mut Vec<u8>, mut ip: usize, mut op: usize, flags: u32| -> (TINFLStatus, usize, usize) {
+            loop {
+                let (st, c, w) = decompress(r, &data[ip..], out, op, flags);
+                ip += c;
+                op += w;
+                if st != TINFLStatus::BlockBoundary {
+                    return (st, ip, op);
+                }
+            }
+        };
+        let mut a = Box::new(DecompressorOxide::new());
+        let mut out_a = vec![0u8; room];
+        let (sa, ia, oa) = run(&mut a, &mut out_a, 0, 0, F_FLAT);
+        // stop-and-continue
+        let mut b = Box::new(DecompressorOxide::new());
+        let mut out_b = vec![0u8; room];
+        let (mut ip, mut op) = (0usize, 0usize);
+        let mut stops = 0u64;
+        loop {
+            let (st, c, w) = decompress(&mut b, &data[ip..], &mut out_b, op, F_FLAT | F_BB);
+            ip += c;
+            op += w;
+            if st != TINFLStatus::BlockBoundary {
+                if (st, ip, op) != (sa, ia, oa) || out_b[..op] != out_a[..oa] {
+                    return Err(format!("stop-and-continue run ends ({}, in {}, out {}), uninterrupted run ends ({}, in {}, out {})", status_name(st), ip, op, status_name(sa), ia, oa));
+                }
+                break;
+            }
+            stops += 1;
+            let Some(rec) = b.block_boundary_state() else {
+                return Err("BlockBoundary stop but block_boundary_state() is None".into());
+            };
+            let mut r2 = DecompressorOxide::from_block_boundary_state(&rec);
+            let keep = op.min(32768);
+            let mut out2 = vec![0u8; room];
+            out2[op - keep..op].copy_from_slice(&out_b[op - keep..op]);
+            let (s2, i2, o2) = run(&mut r2, &mut out2, ip, op, F_FLAT);
+            if (s2, i2, o2) != (sa, ia, oa) || out2[op..o2.min(room)] != out_a[op..oa.min(room)] {
+                return Err(format!("decoder rebuilt at stop #{} (in {}, out {}) ends ({}, in {}, out {}), uninterrupted run ends ({}, in {}, out {})", stops, ip, op, status_name(s2), i2, o2, status_name(sa), ia, oa));
+            }
+        }
+        Ok(stops)
+    }
+
+    /// valid non-final first blocks (rich tables, each bit alignment) followed by every targeted
+    /// rule violation of C04 and by valid final blocks: (description, bytes)
+    pub fn any_streams(th: bool) -> Vec<(String, Vec<u8>)> {
+        use crate::gen::{dyn_spec_for, CodeShape, StreamBuilder};
+        use crate::refmodel::Token;
+        let toks: Vec<Token> = vec![Token::Lit(b'a'), Token::Lit(b'b'), Token::Lit(b'c'), Token::Match { len: 3, dist: 1 }, Token::Match { len: 4, dist: 2 }, Token::Match { len: 5, dist: 3 }, Token::Match { len: 9, dist: 7 }, Token::Lit(0xfe)];
+        let mut tails: Vec<(String, Vec<u8>)> = crate::props::c04::targeted_invalid_padded(None).into_iter().filter(|t| !t.2).map(|t| (t.0, t.1)).collect();
+        tails.extend(crate::props::c04::targeted_invalid_padded(Some(0)).into_iter().filter(|t| !t.2 && (th || t.0.contains("undefined") || t.0.starts_with("fixed"))).map(|t| (format!("{}+zeros", t.0), t.1)));
+        let mut v = vec![];
+        for first in 0..4 {
+            for align in 0..8usize {
+                if !th && first >= 2 && align % 3 != 0 {
+                    continue;
+                }
+                for (tn, tail) in &tails {
+                    let mut b = StreamBuilder::new(None);
+                    if align != 0 {
+                        crate::gen::align_filler(&mut b, align);
+                    }
+                    match first {
+                        0 => {
+                            let spec = dyn_spec_for(&toks, CodeShape::Flat, CodeShape::Full).unwrap();
+                            b.dynamic(&spec, &toks, false);
+                        }
+                        1 => {
+                            let spec = dyn_spec_for(&toks, CodeShape::Full, CodeShape::ChainDeep(9)).or_else(|| dyn_spec_for(&toks, CodeShape::Full, CodeShape::Flat)).unwrap();
+                            b.dynamic(&spec, &toks, false);
+                        }
+                        2 => {
+                            b.fixed(&toks, false);
+                        }
+                        _ => {
+                            b.stored(b"stored block", false);
+                        }
+                    }
+                    let (bytes, _plain) = b.finish_with_raw_tail(tail);
+                    v.push((format!("first={} align={} tail={}", ["dyn-full-dist", "dyn-full-litlen", "fixed", "stored"][first], align, tn), bytes));
+                }
+            }
+        }
+        v
+    }
+
     pub fn streams(th: bool) -> Vec<GenStream> {
         let mut v = vec![];
         for z in [None, Some((7u8, 2u8))] {
@@ -342,6 +433,34 @@ pub fn run(tier: &str) -> i32 {
             traces += r.2;
         }
         rep.set("boundary_streams", json!(ss.len()));
+        // arbitrary (invalid) continuations after valid non-final blocks: rebuilt == uninterrupted
+        let anys = bb::any_streams(th);
+        let ares = par_for(anys.len(), || (0u64, 0u64, 0u64), |i, acc| {
+            watchdog::tick(900_000 + i as u64, 1);
+            let (desc, bytes) = &anys[i];
+            match guarded(|| bb::boundary_any_case(bytes, 80_000)) {
+                Ok(Ok(st)) => {
+                    acc.0 += st;
+                    acc.1 += 2 * st + 2;
+                    acc.2 += 1;
+                }
+                Ok(Err(e)) => rep.violation(
+                    &format!("C19/block-boundary/{}", if e.contains("rebuilt") { "rebuild-differs" } else { "stop-and-continue-differs" }),
+                    format!("{} :: [{}]", e, desc),
+                    json!({"kind": "boundary-any", "desc": desc, "stream_hex": hex(bytes)}),
+                ),
+                Err(p) => rep.violation("C19/block-boundary/panic", format!("panic {} [{}]", p, desc), json!({"kind": "boundary-any", "desc": desc, "stream_hex": hex(bytes)})),
+            }
+        });
+        let mut any_stops = 0;
+        for r in ares {
+            states += r.0;
+            transitions += r.1;
+            traces += r.2;
+            any_stops += r.0;
+        }
+        rep.set("boundary_streams_with_invalid_continuation", json!(anys.len()));
+        rep.set("boundary_stops_before_invalid_continuation", json!(any_stops));
     }
     rep.set("states", json!(states.max(1)));
     rep.set("transitions", json!(transitions.max(1)));
@@ -362,6 +481,19 @@ pub fn run(tier: &str) -> i32 {
 
 pub fn replay(v: &Value) -> Option<String> {
     let kind = v["kind"].as_str()?;
+    if kind == "boundary-any" {
+        #[cfg(feature = "bb")]
+        {
+            let bytes = unhex(v["stream_hex"].as_str()?);
+            return match guarded(|| bb::boundary_any_case(&bytes, 80_000)) {
+                Ok(Ok(_)) => None,
+                Ok(Err(e)) => Some(e),
+                Err(p) => Some(format!("panic {}", p)),
+            };
+        }
+        #[cfg(not(feature = "bb"))]
+        return Some("block-boundary replays need the bb flavour: cargo build --features bb".into());
+    }
     if kind == "boundary" {
         #[cfg(feature = "bb")]
         {
